@@ -17,6 +17,7 @@ type Expr interface{}
 type EIdent struct{ Name string }
 type EInt struct{ Val string }
 type EBool struct{ Val bool }
+type EFloat struct{ Val string }
 type EStr struct{ Val string }
 type EBin struct {
 	Op   string
@@ -73,6 +74,15 @@ func lex(s string) ([]tok, error) {
 			j := i
 			for j < len(s) && (unicode.IsDigit(rune(s[j])) || s[j] == '_' || s[j] == 'x' || (s[j] >= 'a' && s[j] <= 'f') || (s[j] >= 'A' && s[j] <= 'F')) {
 				j++
+			}
+			if j < len(s) && s[j] == '.' && j+1 < len(s) && unicode.IsDigit(rune(s[j+1])) {
+				j++
+				for j < len(s) && unicode.IsDigit(rune(s[j])) {
+					j++
+				}
+				ts = append(ts, tok{"float", s[i:j]})
+				i = j
+				continue
 			}
 			ts = append(ts, tok{"int", strings.ReplaceAll(s[i:j], "_", "")})
 			i = j
@@ -299,6 +309,8 @@ func (p *parser) parsePostfix() (Expr, error) {
 		}
 	case "int":
 		e = EInt{t.text}
+	case "float":
+		e = EFloat{t.text}
 	case "str":
 		e = EStr{t.text}
 	case "op":
@@ -591,7 +603,7 @@ func (sp *Specs) ParseSpecFile(path string) error {
 			continue
 		}
 		w, _ := firstWord(t)
-		if !keywords[w] && len(lines) > 0 { // continuation
+		if len(lines) > 0 && (!keywords[w] || strings.HasSuffix(strings.TrimSpace(lines[len(lines)-1].text), ";")) { // continuation
 			lines[len(lines)-1].text += " " + t
 			continue
 		}
